@@ -3,7 +3,7 @@ import copy
 import gen_rules, impl, model
 
 CONSTS = ()
-ASSUMPTIONS = ["a reference is a string (leaf, dict key or dict value) that starts with @"]
+ASSUMPTIONS = ["a reference is an @name at the start of a string (leaf, dict key, dict value) or embedded in a longer name (string macros)"]
 
 
 def run(ctx, factor):
@@ -20,7 +20,10 @@ def run(ctx, factor):
         status = g.pick(["defined-before", "defined-after", "undefined", "defined"])
         ref = "@ref"
         refdef = {"name": ref, "pattern": [g.pick(["pop", {"sub": ["rcx"]}])] if g.chance(0.5) else "xor"}
-        pos = g.pick(["list-item", "operand", "dict-value", "key-with-operands", "key-with-times", "in-macro-body"])
+        pos = g.pick(["list-item", "operand", "dict-value", "key-with-operands", "key-with-times", "in-macro-body",
+                      "embedded-in-operand", "embedded-in-mnemonic", "embedded-in-dict-value"])
+        if pos.startswith("embedded"):
+            refdef = {"name": ref, "pattern": g.pick(["ax", "orq", "r8"])}      # only string macros can sit inside a name
         macros = [copy.deepcopy(d) for d in defs[: g.int(1, 2)]]
         pat = doc["pattern"]
         if pos == "list-item":
@@ -29,6 +32,12 @@ def run(ctx, factor):
             pat.insert(g.int(0, len(pat)), {"mov": ["rax", ref]})
         elif pos == "dict-value":
             pat.insert(g.int(0, len(pat)), {"mov": [{"$deref": {"main_reg": ref}}]})
+        elif pos == "embedded-in-operand":
+            pat.insert(g.int(0, len(pat)), {"mov": [g.pick(["%", "r", "e"]) + ref, "rbx"]})
+        elif pos == "embedded-in-mnemonic":
+            pat.insert(g.int(0, len(pat)), g.pick(["x", "mov"]) + ref)
+        elif pos == "embedded-in-dict-value":
+            pat.insert(g.int(0, len(pat)), {"mov": [{"$deref": {"main_reg": "%" + ref}}]})
         elif pos == "key-with-operands":
             pat.insert(g.int(0, len(pat)), {ref: ["rax"]})
         elif pos == "key-with-times":
